@@ -329,6 +329,8 @@ def weave_region(repo, reg, mode, log, contract_only=False):
     # A statement-like chunk (proof block, ghost let, assert) whose anchor token disappeared is not dropped into
     # the middle of whatever replaced it: it is deferred to the next statement boundary of the new code.
     pending = []
+    pending_labels = []
+    pending_loop = []
 
     def is_clause(a):
         s0 = a.lstrip()
@@ -337,14 +339,46 @@ def weave_region(repo, reg, mode, log, contract_only=False):
     def emit_anns(k, anchored=True):
         nonlocal nann
         for a in anns_before.get(k, []):
+            if not anchored and a.lstrip().startswith((":", "it:", "jt:", "iter:")) and "\n" not in a.strip():
+                # an iterator label whose anchor token (`in`) is gone (the loop header moved): it is attached to the
+                # next `in` of the new code; if there is none it is dropped (hints that mention it then fail to
+                # resolve -> contract-only retry)
+                nann += 1
+                if a.lstrip().startswith(("it:", "jt:", "iter:")):
+                    pending_labels.append(a)
+                continue
+            if not anchored and a.lstrip().startswith(("invariant", "decreases")):
+                # loop clauses whose loop header moved: attached to the end of the next loop header of the new code
+                pending_loop.append(a)
+                nann += 1
+                continue
             if anchored or is_clause(a):
                 out.append("\n//@+\n" + a + "\n//@-\n")
             else:
                 pending.append(a)
             nann += 1
 
+    hdr = {"open": False, "depth": 0}
+
     def emit_tok(t):
+        if t in ("for", "while"):
+            hdr["open"], hdr["depth"] = True, 0
+        elif hdr["open"]:
+            if t in ("(", "["):
+                hdr["depth"] += 1
+            elif t in (")", "]"):
+                hdr["depth"] -= 1
+            elif t == "{" and hdr["depth"] == 0:
+                hdr["open"] = False
+                if pending_loop:
+                    for a in pending_loop:
+                        out.append("\n//@+\n" + a + "\n//@-\n")
+                    del pending_loop[:]
+            elif t == ";" and hdr["depth"] == 0:
+                hdr["open"] = False
         out.append(_tok_out(t))
+        if t == "in" and pending_labels:
+            out.append("\n//@+\n" + pending_labels.pop(0) + "\n//@-\n")
         if t in (";", "{", "}") and pending:
             for a in pending:
                 out.append("\n//@+\n" + a + "\n//@-\n")
